@@ -145,6 +145,8 @@ def run(ctx):
         nx, nu = rng.randint(1, 3), rng.randint(0, 2)
         rs = np.random.RandomState(rng.randint(0, 2 ** 31 - 1))
         X = rs.uniform(-1, 1, (5, nx + nu))
+        if rng.random() < 0.4:
+            X = rs.randint(-3, 4, (5, nx + nu)).astype(rng.choice(['int64', 'int32', 'float64']))     # integer-valued samples
         ka = pykoop.RandomFourierKernelApprox(n_components=3, random_state=rng.randint(0, 99), method=rng.choice(['weight_only', 'weight_offset']))
         lf = pykoop.KernelApproxLiftingFn(kernel_approx=ka).fit(X, n_inputs=nu)
         Xt = lf.transform(X)
